@@ -54,6 +54,7 @@ class CppFacts:
         for hd in present:
             h.update(repo.read(f"{RUNTIME}/{hd}").encode())
         h.update(std.encode())
+        h.update(b"v2")
         key = h.hexdigest()[:24]
         cdir = os.path.join(VERIF, ".cache")
         cpath = os.path.join(cdir, f"cppfacts.{key}.pkl")
@@ -170,7 +171,7 @@ class CppFacts:
                 new_ctx = ctx + [("class", name or "")]
                 q = "::".join(c[1] for c in new_ctx if c[0] == "class")
                 if rb and re_ and node.get("inner"):
-                    classes.setdefault(q, []).append({"file": rb[0], "begin": rb[1], "end": re_[1] + re_[3],
+                    classes.setdefault(q, []).append({"file": os.path.relpath(rb[0], inc) if rb[0].startswith(inc) else rb[0], "begin": rb[1], "end": re_[1] + re_[3],
                                                       "kind": kind, "line": rb[2]})
         elif kind in ("CXXMethodDecl", "FunctionDecl", "CXXConstructorDecl", "CXXConversionDecl"):
             body = None
